@@ -457,7 +457,7 @@ func (s *Sweeper) writesOfCall(fn *ssa.Function, cc *ssa.CallCommon) rootSet {
 			return out
 		}
 		if ct := s.e.contractFor(callee); ct != nil {
-			if ct.ModAny {
+			if ct.ModAny || len(ct.ModSorts) > 0 {
 				for _, a := range cc.Args {
 					if pointerLike(a.Type()) {
 						out.add(s.roots(fn, a, map[ssa.Value]bool{}))
